@@ -262,6 +262,10 @@ def case_readtext(ctx, inp):
         ctx.branch("unicode")
     if d is None and 13 in data:
         ctx.branch("carriage-returns")
+    if d is not None and d not in ([10], [13], [13, 10]) and (13 in data or 10 in data):
+        ctx.branch("custom-delimiter-with-cr-or-lf-in-content")
+        if 13 in d:
+            ctx.branch("custom-delimiter-containing-cr")
 
 
 def case_multifile(ctx, inp):
@@ -305,6 +309,8 @@ def case_multifile(ctx, inp):
         ctx.branch("include_path")
     if any(not f for f in files):
         ctx.branch("an-empty-file")
+    if any(13 in f or 10 in f for f in files) and d not in ([10], [13], [13, 10]):
+        ctx.branch("custom-delimiter-with-cr-or-lf-in-content")
 
 
 CASES = {"plan": case_plan, "round53": case_round53, "seek": case_seek, "readblock": case_readblock,
@@ -316,7 +322,7 @@ CASES = {"plan": case_plan, "round53": case_round53, "seek": case_seek, "readblo
 # ----------------------------------------------------------------------------------------------
 
 DELIMS = [b"\n", b"|", b"||", b"ab", b"\r\n", b"abc", b"a\n", "é".encode(), "€|".encode(),
-          b"aa", b"aba", b"abab", "€€".encode(), b"|||"]
+          b"aa", b"aba", b"abab", "€€".encode(), b"|||", b"\r", b"\r|", b"|\r\n", b";\r", b"\n\r"]
 
 
 def gen_data(rng, d, maxlen=40):
@@ -330,6 +336,9 @@ def gen_data(rng, d, maxlen=40):
         uni = any(c > 127 for c in d)
     except UnicodeDecodeError:
         uni = True
+    if rng.random() < 0.5:
+        # carriage returns / newlines inside the content: no path may translate them
+        pieces += [b"\r", b"\n", b"\r\n", b"\r", b"\n\r"]
     if uni or rng.random() < 0.15:
         pieces = [p for p in pieces if _valid_utf8(p)] + ["é".encode(), "€".encode(), "\U0001d11e".encode()]
     out = b""
@@ -358,6 +367,54 @@ def gen_blocksizes(rng, n, k=3):
 def generate(ctx):
     rng = ctx.rng
     th = ctx.thorough()
+    # API level first: if the machine is loaded and the deadline cuts the run, these have run
+    # ---- exhaustive small blocks space -------------------------------------------------------------
+    ln_max = 7 if th else 5
+    for d in ([97], [97, 98], [97, 97], [97, 98, 97]):
+        for ln in range(0, ln_max + 1):
+            for tup in itertools.product([97, 98], repeat=ln):
+                for bs in range(1, ln + 2):
+                    if th or rng.random() < 0.12:
+                        yield "blocks", {"d": d, "data": list(tup), "bs": bs}
+    for _ in range(ctx.n(150, 2500)):
+        d = list(rng.choice(DELIMS)) if rng.random() < 0.92 else []
+        data = gen_data(rng, d or b"\n")
+        bs = rng.choice(gen_blocksizes(rng, len(data))) if rng.random() < 0.93 else None
+        yield "blocks", {"d": d, "data": data, "bs": bs, "fs": "tmp" if rng.random() < 0.2 else "mem"}
+    # ---- read_text --------------------------------------------------------------------------------
+    yield "readtext", {"data": [97, 124, 124, 98, 124, 124], "delim": [124, 124], "bss": [1, 2, 3]}
+    yield "readtext", {"data": [], "delim": [10], "bss": [1, 2]}
+    yield "readtext", {"data": [], "delim": None, "bss": [3]}
+    yield "readtext", {"data": list(b"a\r\nb||c\rd||e\nf"), "delim": [124, 124], "bss": [2, 5]}
+    yield "readtext", {"data": list(b"a\r\nb\r|c\rd\r|\n"), "delim": [13, 124], "bss": [1, 4], "fs": "tmp"}
+    for ip in (False, True):
+        yield "multifile", {"files": [list(b"a\r\nb||c\rd"), list(b"\r||\n")], "delim": [124, 124],
+                            "include_path": ip, "fpp": 2, "bs": None}
+        yield "multifile", {"files": [list(b"x\ry;\r\n\r"), list(b"\r\n;\rz")], "delim": [59, 13],
+                            "include_path": ip, "fpp": None, "bs": None, "fs": "tmp"}
+    for _ in range(ctx.n(130, 2000)):
+        r = rng.random()
+        if r < 0.2:
+            d = None
+            data = [rng.choice([97, 98, 10, 10, 13]) for _ in range(rng.randint(0, 25))]
+        else:
+            d = list(rng.choice(DELIMS))
+            data = gen_data(rng, d)
+            if not _valid_utf8(bytes(data)):
+                continue
+        yield "readtext", {"data": data, "delim": d, "bss": gen_blocksizes(rng, len(data)),
+                           "fs": "tmp" if rng.random() < 0.25 else "mem"}
+    for _ in range(ctx.n(50, 700)):
+        d = list(rng.choice(DELIMS))
+        files = []
+        for _ in range(rng.randint(1, 5)):
+            f = gen_data(rng, d, 13)
+            files.append(f if _valid_utf8(bytes(f)) else [])
+        mode = rng.choice(["fpp", "bs", "none"])
+        yield "multifile", {"files": files, "delim": d, "include_path": rng.random() < 0.5,
+                            "fpp": rng.randint(1, 4) if mode == "fpp" else None,
+                            "bs": rng.randint(1, 9) if mode == "bs" else None,
+                            "fs": "tmp" if rng.random() < 0.2 else "mem"}
     # ---- offsets/lengths: exhaustive small space + large sizes -------------------------------
     yield "plan", {"size": 0, "bs": 0}
     yield "plan", {"size": 5, "bs": 0}
@@ -411,46 +468,6 @@ def generate(ctx):
             except UnicodeDecodeError:
                 continue
             yield sec, {"text": [ord(c) for c in t], "delim": [ord(c) for c in d.decode("utf-8")]}
-    # ---- exhaustive small blocks space -------------------------------------------------------------
-    ln_max = 7 if th else 5
-    for d in ([97], [97, 98], [97, 97], [97, 98, 97]):
-        for ln in range(0, ln_max + 1):
-            for tup in itertools.product([97, 98], repeat=ln):
-                for bs in range(1, ln + 2):
-                    if th or rng.random() < 0.12:
-                        yield "blocks", {"d": d, "data": list(tup), "bs": bs}
-    for _ in range(ctx.n(150, 2500)):
-        d = list(rng.choice(DELIMS)) if rng.random() < 0.92 else []
-        data = gen_data(rng, d or b"\n")
-        bs = rng.choice(gen_blocksizes(rng, len(data))) if rng.random() < 0.93 else None
-        yield "blocks", {"d": d, "data": data, "bs": bs, "fs": "tmp" if rng.random() < 0.2 else "mem"}
-    # ---- read_text --------------------------------------------------------------------------------
-    yield "readtext", {"data": [97, 124, 124, 98, 124, 124], "delim": [124, 124], "bss": [1, 2, 3]}
-    yield "readtext", {"data": [], "delim": [10], "bss": [1, 2]}
-    yield "readtext", {"data": [], "delim": None, "bss": [3]}
-    for _ in range(ctx.n(130, 2000)):
-        r = rng.random()
-        if r < 0.2:
-            d = None
-            data = [rng.choice([97, 98, 10, 10, 13]) for _ in range(rng.randint(0, 25))]
-        else:
-            d = list(rng.choice(DELIMS))
-            data = gen_data(rng, d)
-            if not _valid_utf8(bytes(data)):
-                continue
-        yield "readtext", {"data": data, "delim": d, "bss": gen_blocksizes(rng, len(data)),
-                           "fs": "tmp" if rng.random() < 0.25 else "mem"}
-    for _ in range(ctx.n(50, 700)):
-        d = list(rng.choice(DELIMS))
-        files = []
-        for _ in range(rng.randint(1, 5)):
-            f = gen_data(rng, d, 13)
-            files.append(f if _valid_utf8(bytes(f)) else [])
-        mode = rng.choice(["fpp", "bs", "none"])
-        yield "multifile", {"files": files, "delim": d, "include_path": rng.random() < 0.5,
-                            "fpp": rng.randint(1, 4) if mode == "fpp" else None,
-                            "bs": rng.randint(1, 9) if mode == "bs" else None,
-                            "fs": "tmp" if rng.random() < 0.2 else "mem"}
 
 
 LEVEL_TEXT = (
